@@ -159,7 +159,10 @@ class EffectivePotential(ABC):
 
             guess = guesses.getFieldPoint(i)
 
-            res = scipy.optimize.minimize(evaluateWrapper, guess, tol=tol)
+            # jac="3-point": finite differences with a step relative to the field
+            # values. The default gradient uses a fixed absolute step of ~1e-8, which
+            # is lost in rounding when the field values are large in the chosen units.
+            res = scipy.optimize.minimize(evaluateWrapper, guess, jac="3-point", tol=tol)
 
             resLocation[i] = res.x
             resValue[i] = res.fun
